@@ -437,8 +437,33 @@ func (s *LinearState) FindCachedRules(ctx *Context, event Map) (map[string]*Rule
 	return acc, nil
 }
 
+// remHooks runs the remHook (if any) for every fact, as
+// IndexedState does before it clears or deletes its location.
+func (s *LinearState) remHooks(ctx *Context) error {
+	if s.remHook == nil {
+		return nil
+	}
+	s.slock(ctx, true)
+	ids := make([]string, 0, len(s.Facts))
+	for id := range s.Facts {
+		ids = append(ids, id)
+	}
+	s.sunlock(ctx, true)
+	for _, id := range ids {
+		if err := s.remHook(ctx, s, id); err != nil {
+			Log(ERROR, ctx, "LinearState.Clear", "state", s.Name, "error", err,
+				"id", id, "when", "remHook")
+			return err
+		}
+	}
+	return nil
+}
+
 func (s *LinearState) Clear(ctx *Context) error {
 	Log(INFO, ctx, "LinearState.Clear", "name", s.Name)
+	if err := s.remHooks(ctx); err != nil {
+		return err
+	}
 	_, err := s.store.Clear(ctx, s.Name)
 	// Maybe protect the store (above), too.
 	s.slock(ctx, false)
@@ -452,6 +477,9 @@ func (s *LinearState) Clear(ctx *Context) error {
 
 func (s *LinearState) Delete(ctx *Context) error {
 	Log(DEBUG, ctx, "LinearState.Delete", "name", s.Name)
+	if err := s.remHooks(ctx); err != nil {
+		return err
+	}
 	err := s.store.Delete(ctx, s.Name)
 	// Maybe protect the store (above), too.
 	s.slock(ctx, false)
